@@ -35,6 +35,12 @@ int main(void)
     LEAN_NAT("PCP_BUFSIZ", BUFSIZ);
     LEAN_NAT("RCP_MODEMASK", RCP_MODEMASK);
     lean_str("EXIT_SUBDIR_FILENAME", EXIT_SUBDIR_FILENAME);
+    {   /* the same as bytes, for kernel-checkable proofs about the sentinel */
+        const char *p = EXIT_SUBDIR_FILENAME;
+        printf("def EXIT_SUBDIR_FILENAME_BYTES : List Nat := [");
+        for (; *p; p++) printf("%s%u", p == EXIT_SUBDIR_FILENAME ? "" : ", ", (unsigned char) *p);
+        printf("]\n");
+    }
     LEAN_NAT("EXIT_SUBDIR_FLAG_LEN", strlen(EXIT_SUBDIR_FLAG));
     LEAN_NAT("EXIT_SUBDIR_FLAG_0", (unsigned char) EXIT_SUBDIR_FLAG[0]);
     LEAN_NAT("EXIT_SUBDIR_FLAG_1", (unsigned char) EXIT_SUBDIR_FLAG[1]);
